@@ -18,6 +18,7 @@ def register(reg):
     register_docs(reg)
     register_seq(reg)
     register_ns(reg)
+    register_numcmp(reg)
     register_keyfile_path(reg)
     register_stubs(reg)
     register_hash(reg)
@@ -292,6 +293,15 @@ def register_keyfile_path(reg):
     def default_keyfile_path(ex, st, args, cx):
         """Config.DEFAULT_CINCOKEY_FILEPATH: a class constant computed at import time (expanduser('~') + '/.cincokey')"""
         return ex.o.str_(z3.String("DEFAULT_CINCOKEY_FILEPATH"))
+
+
+def register_numcmp(reg):
+    def mk(name, sym):
+        @reg.specfun(name)
+        def f(ex, st, args, cx, sym=sym):
+            return ex.o.bool_(ex.o.num_cmp(sym, args[0].e, args[1].e))
+    for name, sym in (("num_le", "<="), ("num_ge", ">="), ("num_lt", "<"), ("num_gt", ">")):
+        mk(name, sym)
 
 
 def register_ns(reg):
